@@ -3,6 +3,7 @@ from analysis.runner import rule
 from analysis.facts import AnchorError
 from analysis import chessref as R
 
+THOROUGH_CONFIGS = ['release', 'nobmi2', 'movegen-alone']
 LEVEL = "proof"
 EXHAUSTIVE = True
 DECIDED = ("R1 every entry of the knight/king/pawn-attack/pawn-push/rook-ray/bishop-ray/between/line/adjacent-file/adjacent-rank tables equals its "
